@@ -232,6 +232,7 @@ def generate(rng, config):
                   "explicit": rng.random() < 0.5}
     return {"type": gtype, "construction": c, "args": args, "mods": mods,
             "save": save, "cli": config == "cli", "resave": resave,
+            "locale": rng.choice([None, None, None, "ascii", "latin-1"]),
             "save_pos": rng.randint(0, len(mods)) if save else None,
             "prng": {"seed": rng.randrange(2 ** 32), "strategy": strategy,
                      "budget": budget}}
@@ -672,6 +673,8 @@ def execute(case, ctx):
         return _exec_huge(case, ctx)
     gtype = case["type"]
     fs = SimFS(on_fire=ctx.fault)
+    if case.get("locale"):
+        fs.locale_encoding = case["locale"]
     full = _spec(case)
     with open_router(fs):
         res, sim = _build(case, full)
@@ -962,6 +965,8 @@ def _read_saved(data, fmt, gtype):
 def _exec_cli(case, ctx):
     gtype = case["type"]
     fs = SimFS(on_fire=ctx.fault)
+    if case.get("locale"):
+        fs.locale_encoding = case["locale"]
     spec = _spec(case)
     fam = {"simple": ["kcolor", "1"], "bipartite": ["php"],
            "dag": ["peb"]}[gtype]
